@@ -43,9 +43,10 @@ def matrix(m, n, cplx, seed):
 def operator(spec, seed):
     kind = spec[0]
     if kind == "dense":
-        _, m, n, c = spec
+        _, m, n, c = spec[:4]
         M, sig = matrix(m, n, c, seed)
-        return ops.Dense(M), M, sig
+        f = {"": 1.0, "tiny": 2.0**-45, "huge": 2.0**40}[spec[4] if len(spec) > 4 else ""]  # the same matrix at another scale
+        return ops.Dense(M * f), M * f, sig * f
     if kind == "Identity":
         n = spec[1]
         return ops.Identity((n, n), np.complex128 if spec[2] else np.float64), np.eye(n), np.ones(n)
@@ -104,8 +105,8 @@ def spec_class(spec):
     if spec[0] == "herm":
         return f"herm,{spec[3]},{'definite' if spec[4] else 'indefinite'},{'c' if spec[2] else 'r'}"
     if spec[0] == "dense":
-        _, m, n, c = spec
-        return f"dense,{'sq' if m == n else ('tall' if m > n else 'wide')},{'c' if c else 'r'}"
+        _, m, n, c = spec[:4]
+        return f"dense,{'sq' if m == n else ('tall' if m > n else 'wide')},{'c' if c else 'r'}" + (f",{spec[4]}" if len(spec) > 4 else "")
     return f"{spec[0]},{'c' if spec[2] else 'r'}"
 
 
@@ -156,9 +157,9 @@ def run_case(case, seed):
                 if algname == "Lanczos" and spec[0] in ("dense", "herm") and j != k:
                     bad("factors", "krylov-did-not-return-k-triplets", {"returned": j})
                 s = np.diag(Sd)
-                if np.max(np.abs(Sd - np.diag(s)), initial=0.0) > 1e-12:
+                if np.max(np.abs(Sd - np.diag(s)), initial=0.0) > 1e-12 * sv[0]:
                     bad("Sigma", "not-diagonal", {"S": short(Sd)})
-                if np.any(np.abs(s.imag) > 1e-10) or np.any(s.real < -1e-10):
+                if np.any(np.abs(s.imag) > 1e-10 * sv[0]) or np.any(s.real < -1e-10 * sv[0]):
                     bad("Sigma", "negative-or-complex", {"sigma": [complex(x) for x in s]})
                 if np.max(np.abs(Ud.conj().T @ Ud - np.eye(j))) > 1e-7:
                     bad("U", "not-orthonormal", {"err": float(np.max(np.abs(Ud.conj().T @ Ud - np.eye(j))))})
@@ -196,7 +197,7 @@ def run_pinv(case, seed):
         cplx = np.iscomplexobj(M)
         rhs = [("b1", g.standard_normal(m)), ("B2", g.standard_normal((m, 2))), ("b1c", g.standard_normal(m) + 1j * g.standard_normal(m))]
         if m > n:
-            rhs.append(("inconsistent", M @ g.standard_normal(n) + 3 * np.linalg.svd(M)[0][:, -1].real))
+            rhs.append(("inconsistent", M @ g.standard_normal(n) + 3 * sig[0] * np.linalg.svd(M)[0][:, -1].real))  # both parts at the operator's scale
         tol = 1e-5 if algname == "CG" else 1e-8
 
         def bad(obs, sym, detail):
@@ -235,6 +236,7 @@ _DESC = {}
 def cases(tier, seed):
     shapes = [(m, n) for m in range(1, 6) for n in range(1, 6)] + [(8, 3), (3, 8)] + ([(20, 20), (12, 7), (7, 12), (6, 6), (9, 2), (2, 9), (30, 5), (5, 30), (16, 15)] if tier == "thorough" else [])
     specs = [["dense", m, n, c] for (m, n) in shapes for c in (False, True)]
+    specs += [["dense", m, n, c, sc] for (m, n) in ((3, 3), (5, 3), (3, 5), (8, 3)) for c in (False, True) for sc in ("tiny", "huge")]
     herm = [["herm", n, c, ann, definite] for n in ((1, 2, 3, 5, 6) if tier == "quick" else (1, 2, 3, 4, 5, 6, 9, 14)) for c in (False, True)
             for ann, definite in (("none", False), ("SelfAdjoint", False), ("SelfAdjoint", True), ("PSD", True))]
     specs += herm
@@ -263,7 +265,7 @@ def case_signature(case):
 
 def describe(tier, seed):
     return {
-        "bound": "m x n in {1..5}^2 plus 8x3, 3x8" + (", 6x6, 9x2, 2x9, 12x7, 7x12, 16x15, 20x20, 30x5, 5x30" if tier == "thorough" else "") + ", real and complex, prescribed singular "
+        "bound": "m x n in {1..5}^2 plus 8x3, 3x8 (four shapes also at scale 2^-45 and 2^40)" + (", 6x6, 9x2, 2x9, 12x7, 7x12, 16x15, 20x20, 30x5, 5x30" if tier == "thorough" else "") + ", real and complex, prescribed singular "
                  "values; self-adjoint dense operators (indefinite with the dominant singular value from a negative eigenvalue, definite; declared SelfAdjoint / PSD / undeclared); Identity, Diagonal (negative / complex entries), ScalarMul, Permutation; operator terms of every kind (invertible family + rectangular Dense / Generic / Sparse / Concatenated / Sliced leaves, "
                  "depth-1 nesting with T, H, scalar, no_dispatch, +, @, kron, BlockDiag); svd: ALL 1<=k<=min(m,n) x {LM, SM} x {omitted, Auto, "
                  "DenseSVD, Lanczos}; pinv: {omitted, Auto, LSTSQ, CG} x right-hand sides {1-D, 2 columns, complex, inconsistent (tall)}",
